@@ -113,6 +113,14 @@ def value_mutations(v):
     if t == "zone":
         out.append(("zone_edit_content", PD.vzone(v["c"] + "!", v["tag"], v["f"])))
         out.append(("zone_edit_content_newline", PD.vzone(v["c"] + "\n", v["tag"], v["f"])))
+        if v["c"]:
+            # whitespace-only edits of the verbatim content are changes of the value too
+            ls = v["c"].split("\n")
+            out.append(("zone_trailing_space_first_line", PD.vzone("\n".join([ls[0] + "  "] + ls[1:]), v["tag"], v["f"])))
+            out.append(("zone_trailing_tab_last_line", PD.vzone("\n".join(ls[:-1] + [ls[-1] + "\t"]), v["tag"], v["f"])))
+            out.append(("zone_leading_space", PD.vzone(" " + v["c"], v["tag"], v["f"])))
+            if ls[0].rstrip() != ls[0]:
+                out.append(("zone_strip_trailing_space", PD.vzone("\n".join([ls[0].rstrip()] + ls[1:]), v["tag"], v["f"])))
         out.append(("zone_change_tag", PD.vzone(v["c"], "txt" if v["tag"] != "txt" else None, v["f"])))
         out.append(("zone_to_string", PD.vstr(v["c"])))
     if t == "holo":
@@ -205,6 +213,7 @@ def mutations(doc, rng=None, cap=None):
     emit("meta_add_field", "", top(lambda m: m["meta"].append(["ADDED", PD.vstr("x")])))
     if doc["front"] is not None:
         emit("frontmatter_edit", "", top(lambda m: m.__setitem__("front", m["front"] + "\nextra: 1")))
+        emit("frontmatter_trailing_space", "", top(lambda m: m.__setitem__("front", m["front"] + "  ")))
         emit("frontmatter_remove", "", top(lambda m: m.__setitem__("front", None)))
     elif not doc["gv"]:
         emit("frontmatter_add", "", top(lambda m: m.__setitem__("front", "added: true")))
